@@ -448,6 +448,27 @@ def run(prog, ctx):
                       "stored coefficient is an entry divided by the sum of all entries (%s)" % why,
                       "`%s` stores a coefficient that is not an entry divided by the sum of all entries: %s" % (src(s.stmt), why))
     ctx.floor("C20.D4", n4, 3, "coefficient stores in optimize_coefficients_* variants")
+    # the working arrays of the optimisation variants are float arrays: an element update `w[i] /= e` / `w[i] *= e` on an array whose dtype
+    # is inherited from its elements (np.array([...]) / np.asarray(...) without dtype) truncates when the elements are ints -- the scheme
+    # coefficients of the spatially adaptive driver are ints -- and the normalised coefficients no longer sum to one (or become NaN)
+    n9 = 0
+    for fi in [f for f in reg.methods.values() if f.name.startswith("optimize_coefficients")]:
+        tm9 = Terms(fi.node, max_depth=0)
+        for st in walk_local(fi.node):
+            if isinstance(st, ast.AugAssign) and isinstance(st.op, (ast.Div, ast.Mult)) and isinstance(st.target, ast.Subscript) and isinstance(st.target.value, ast.Name):
+                nm = st.target.value.id
+                n9 += 1
+                inherited = []
+                for b in tm9.env.bindings.get(nm, []):
+                    v = b.value
+                    if b.kind == "assign" and isinstance(v, ast.Call) and isinstance(v.func, ast.Attribute) and v.func.attr in ("array", "asarray", "asanyarray") \
+                            and not any(k.arg == "dtype" for k in v.keywords) and len(v.args) < 2:
+                        inherited.append(v)
+                ctx.check(not inherited, "C20.D4", R.key_of(fi, "float-working-array:%s" % nm), fi.loc(st),
+                          "`%s` updates an array with a dtype of its own" % src(st)[:60],
+                          "`%s` updates an element of `%s = %s`, whose dtype is that of its elements: integer scheme coefficients (spatially adaptive "
+                          "driver) are truncated by the division, so the normalised coefficients do not sum to one" % (src(st)[:60], nm, src(inherited[0])[:70] if inherited else ""))
+    ctx.note("C20.D4", "%s::working-arrays" % REG, "sparseSpACE/GridOperation.py", "%d element updates of working arrays in the optimisation variants analysed" % n9)
 
 
 def _symmetrised(fi):
